@@ -236,13 +236,14 @@ def _case(days, s0, s1, s2, clock, kind):
 
 def w_main(days: int, s0: int, s1: int, s2: int, clock: int, kind: int) -> str:
     """
-    pre: PARTITION is None or s0 == PARTITION
-    pre: 0 <= days < 5 and 0 <= s0 < 18 and 0 <= s1 < 18 and 0 <= s2 < 18 and 0 <= clock < 3 and 0 <= kind < 2
+    pre: PARTITION is None or (s0 == PARTITION[0] and days == PARTITION[1])
+    pre: 0 <= days < 5 and 0 <= s0 < 18 and 0 <= s1 < 18 and 0 <= s2 < 18 and 0 <= clock < 3 and 0 <= kind < 1
     post: _ == ''
     """
-    # (the full product takes three of the six clock sources: the system clock, TRASH_DATE, the clock with a fraction;
-    #  the other three differ only in how consent is given and are covered by W_slots_quick in both tiers)
-    return _case(rt.sel(days, 5), rt.sel(s0, 18), rt.sel(s1, 18), rt.sel(s2, 18), rt.of([0, 1, 5], clock), rt.of([0, 2], kind))
+    # (the full product of date slots takes three of the six clock sources - the system clock, TRASH_DATE, the clock with
+    #  a fraction - and one entry kind; the other clock sources differ only in how consent is given, and they and the
+    #  other kinds are covered by W_slots_quick in both tiers)
+    return _case(rt.sel(days, 5), rt.sel(s0, 18), rt.sel(s1, 18), rt.sel(s2, 18), rt.of([0, 1, 5], clock), rt.of([0], kind))
 
 
 def w_quick(days: int, s0: int, clock: int, kind: int) -> str:
@@ -323,8 +324,8 @@ def obligations(tier):
                   encodes=K.EMPTY_FUNCS + K.PUT_FUNCS + ['vf.sched replay-stepping'], stubs=K.STUBS,
                   bounds='trash-empty DAYS (1, 7, 100) preempted after k < 150 system calls (its runs are shorter: checked) by a complete trash-put of 6 kinds into the same trash directory (volume / home)'))
     if tier == 'thorough':
-        obs.append(CH('W_slots_product', MOD, 'w_main', timeout=4500, partitions=list(range(18)), twin=False, engine='W',
+        obs.append(CH('W_slots_product', MOD, 'w_main', timeout=3000, partitions=[(a, d) for a in range(18) for d in range(5)], twin=False, engine='W',
                       regime='selector', encodes=K.EMPTY_FUNCS, stubs=K.STUBS,
-                      bounds='5 DAYS x 18^3 date slots over 3 trash dirs x 3 clock sources (system clock, TRASH_DATE, a clock half a second past the whole second) x 2 kinds'))
+                      bounds='5 DAYS x 18^3 date slots over 3 trash dirs x 3 clock sources (system clock, TRASH_DATE, a clock half a second past the whole second); 90 tasks of 972 cases'))
     from harness import kpair
     return kpair.obligations(tier) + obs
